@@ -17,6 +17,7 @@ pub struct Cfg {
     pub item_limit: u32,
     pub conn_limit: u32,
     pub port: u16,
+    pub memory: &'static str,
 }
 
 impl Cfg {
@@ -28,11 +29,11 @@ impl Cfg {
             "--eviction-policy".into(), self.eviction.into(),
             "--item-size-limit".into(), self.item_limit.to_string(),
             "--connection-limit".into(), self.conn_limit.to_string(),
-            "--memory-limit".into(), "64MiB".into(),
+            "--memory-limit".into(), self.memory.into(),
         ]
     }
     pub fn label(&self) -> String {
-        format!("runtime={} threads={} eviction={} item={} conns={} port={}", self.runtime, self.threads, self.eviction, self.item_limit, self.conn_limit, self.port)
+        format!("runtime={} threads={} eviction={} item={} conns={} memory={} port={}", self.runtime, self.threads, self.eviction, self.item_limit, self.conn_limit, self.memory, self.port)
     }
 }
 
@@ -142,11 +143,14 @@ pub fn matrix(seed: u64, thorough: bool) -> Vec<Cfg> {
                     // quick tier keeps 11 of the 12 base combinations
                     continue;
                 }
-                v.push(Cfg { runtime, threads, eviction, item_limit, conn_limit, port });
+                v.push(Cfg { runtime, threads, eviction, item_limit, conn_limit, port, memory: "64MiB" });
                 port = crate::net::free_port();
             }
         }
     }
+    // values that do not fit 16 / 32 bits: a connection limit above 65535, memory limits of 4 GiB and more (not reached)
+    let rt = *rng.pick(&["current-thread", "multi-thread"]);
+    v.push(Cfg { runtime: rt, threads: 2, eviction: "random", item_limit: 65536, conn_limit: *rng.pick(&[65536u32, 65537, 65539, 131072]), port, memory: *rng.pick(&["4GiB", "8GiB", "4294968296", "16GiB"]) });
     v
 }
 
@@ -250,9 +254,11 @@ fn run_one(bin: &str, cfg: &Cfg, programs: &[Vec<u8>]) -> (Vec<String>, Vec<Stri
             }
             drop(c);
             // --- the configured connection limit is the total limit enforced
-            if cfg.conn_limit <= 3 {
+            if cfg.conn_limit <= 3 || cfg.conn_limit > 60000 {
                 std::thread::sleep(Duration::from_millis(50));
-                let mut conns: Vec<TcpStream> = (0..cfg.conn_limit + 2).map(|_| TcpStream::connect(("127.0.0.1", cfg.port)).unwrap()).collect();
+                let nconn = if cfg.conn_limit <= 3 { cfg.conn_limit + 2 } else { 4 };
+                let want = cfg.conn_limit.min(nconn);
+                let mut conns: Vec<TcpStream> = (0..nconn).map(|_| TcpStream::connect(("127.0.0.1", cfg.port)).unwrap()).collect();
                 // one noop per connection, then wait for answers: a served connection keeps its slot, so the number of
                 // answered connections only grows; it must reach the limit (the slot of the probe connection above may
                 // take a moment to come back on a loaded machine) and never pass it
@@ -276,16 +282,16 @@ fn run_one(bin: &str, cfg: &Cfg, programs: &[Vec<u8>]) -> (Vec<String>, Vec<Stri
                         }
                     }
                     let served = answered.iter().filter(|a| **a).count() as u32;
-                    if served >= cfg.conn_limit {
+                    if served >= want {
                         let since = *full_since.get_or_insert_with(Instant::now);
-                        if served > cfg.conn_limit || since.elapsed() > Duration::from_millis(400) {
+                        if served > want || since.elapsed() > Duration::from_millis(400) {
                             break;
                         }
                     }
                 }
                 let served = answered.iter().filter(|a| **a).count() as u32;
-                if served != cfg.conn_limit {
-                    viols.push((vec!["C20", "C17"], format!("{} of {} simultaneous connections are served under --connection-limit {}", served, cfg.conn_limit + 2, cfg.conn_limit)));
+                if served != want {
+                    viols.push((vec!["C20", "C17"], format!("{} of {} simultaneous connections are served under --connection-limit {}", served, nconn, cfg.conn_limit)));
                 }
             }
             // --- expiry follows real elapsed seconds
